@@ -7,7 +7,7 @@ oracle: an independent row specification in Python (split at sep, every field a 
 import math, re, struct
 from vf.core import *
 
-ERRCODE = {"invalid-stream": 0, "extraction": 1, "conversion": 2, "unexpected": 3, "not-consumed": 4}
+ERRCODE = {"invalid-stream": 0, "extraction": 1, "conversion": 2, "unexpected": 3, "not-consumed": 4, "too-long": 6}
 SEPS = [b",", b";", b" ", b"\t", b"|", b":"]
 BUFMAX = 64
 
@@ -497,6 +497,9 @@ def run(ctx):
         "and parse_nil (empty range is an error); to_chars with `parse (to_chars v) = (v, all of it)`. For Eigen::Index the hypotheses are PROVED for the "
         "model parser parse_int64 (C17_int64_*). For floating point they are sampled by the oracle (bit-exact round trips, independent Python literal grammar).",
         "std::istream (get/peek/eof/fail, sentry rule) is modelled by hand in Csv.v and validated only by the correspondence runs (flags and bytes left after every call)",
+        "the model follows /repo after fix eb0882ec5 (read(): ptr == bufend && keep_reading -> read_error); the theorems hold for ALL field lengths "
+        "(over-long token = read error, C17_chunked_equals_spec64_*, C17_overlong_token_rejected, C17_no_silent_alteration); the oracle keeps the signature "
+        "C17:overlong-token-split-silently for a regression",
         "theorems are stated for newline-terminated rows on a good() stream; rows ended by EOF and calls on streams with eofbit/failbit are covered by the correspondence only",
         "NaN payloads are not expected to survive (to_chars prints 'nan'); the oracle requires NaN-ness and sign",
     ]
@@ -504,8 +507,8 @@ def run(ctx):
     if not build_driver(ctx, "C17"):
         return
     rng = ctx.rng
-    cases = [mk_rows_case("d", b",", b"1" + b"0" * 70 + b"\n", [-1], False, "float-overlong-witness", False),     # minimal replays of the
-             dict(op="rt", F="l", sep=b",", rows=1, cols=1, bits=[(0, 1)])]                                         # two confirmed defects first
+    cases = [mk_rows_case("d", b",", b"1" + b"0" * 70 + b"\n", [-1], False, "float-overlong-witness", False),     # minimal replays first: the over-long
+             dict(op="rt", F="l", sep=b",", rows=1, cols=1, bits=[(0, 1)])]                                         # token (fixed in eb0882ec5) and the known long double finding
     for kind in ("i", "d"):
         cases += gen_special(kind)
         cases += gen_window_sweep(kind) if not ctx.quick() or kind == "i" else gen_window_sweep(kind)[::3]
